@@ -1,2 +1,3 @@
 import PexpectModel.Drv.Ex
 import PexpectModel.Drv.Launch
+import PexpectModel.Drv.Screen
